@@ -375,6 +375,17 @@ def check_c10(tier, seed, repo):
                             v = rnd.choice(decs)
                         kw[nm] = sign * v
                 combos.append(kw)
+    # decimal values: every 1..6-place decimal must come back as the float its text denotes
+    for nm in ("hours", "minutes", "seconds"):
+        for _ in range(4000 if tier == "thorough" else 800):
+            places = rnd.randint(1, 6)
+            v = round(rnd.choice([1, 10, 60, 1000]) * rnd.random(), places)
+            combos.append({nm: rnd.choice([1, -1]) * v})
+        # very small values, which str() spells with an exponent
+        for v in (0.00005, 1e-05, 1.5e-07, 0.0001, 0.00012345):
+            for sg in (1, -1):
+                combos.append({nm: sg * v})
+                combos.append({"days": sg * 2, nm: sg * v})
     for w in (1, 2, 52, 1000, -3):
         combos.append({"weeks": w})
     combos.append({})
@@ -418,7 +429,7 @@ def check_c10(tier, seed, repo):
             except Exception as e:
                 fail("datetime-like|" + t, {"text": t}, "%s: %s" % (type(e).__name__, e), kw)
     return [{"name": "duration.str-parse.roundtrip", "kind": "grid",
-             "bound": "all 63 unit subsets x both signs x integer/decimal values (seeded), weeks, "
+             "bound": "all 63 unit subsets x both signs x integer/decimal values (seeded), 2400 random 1-6 place decimals (12000 thorough), weeks, "
                       "empty; 13 designator texts; 432 date-time-like spellings (basic+extended)",
              "evaluations": n, "exhaustive": False, "failures": fails}]
 
